@@ -686,13 +686,20 @@ func (s *Server) filterBatchLocked(next jmessages) jmessages {
 		// the sequencing barrier (see #78).
 		//
 		// Note, however, if it does NOT correspond to a known push-call, keep it
-		// in the batch so it can be serviced as an error.
+		// in the batch so it can be serviced as an error -- unless push is
+		// enabled and the message has the shape of a response (no method, and
+		// a result or error): Then it is a late, duplicate, or unsolicited
+		// reply to a callback, and must be discarded. Answering it would send
+		// the client an error carrying an ID from the client's own ID space,
+		// which it could mistake for the reply to one of its calls.
 		id := string(fixID(req.ID))
 		if s.call[id] != nil {
 			rsp := s.call[id]
 			delete(s.call, id)
 			rsp.ch <- req
 			s.log("Received response for callback %q", id)
+		} else if s.allowP && req.M == "" && (req.E != nil || req.R != nil) {
+			s.log("Discarding response for unknown callback %q", id)
 		} else {
 			keep = append(keep, req)
 		}
